@@ -156,9 +156,9 @@ func patternPopulation(c *ctx, forC10 bool) []patCase {
 	}
 	// 5. seeded random larger trees
 	r := c.rng("random")
-	nRand := c.n(12000, 250000)
+	nRand := c.n(12000, 600000)
 	if forC10 {
-		nRand = c.n(8000, 150000)
+		nRand = c.n(8000, 500000)
 	}
 	for i, t := range randomPatterns(r, nRand) {
 		if forC10 {
